@@ -528,7 +528,7 @@ def run_data(chk, w, quick):
         if c.get("kind") in ("nonascii", "astral"):
             chk.dist("data.non_ascii_text")
         if len(chk.cov["samples"]) < 4 and c["n"] in (L_DATA, L_DATA + 1) and c["stream"] in ("state", "reply"):
-            chk.sample({"probe": label, "n": c["n"], "impl": got, "model": m})
+            chk.sample({"probe": label, "n": c["n"], "form": c.get("kind") or c.get("shape") or "dumps", "impl": got, "model": m})
         case = {k: v for k, v in c.items() if not k.startswith("_")}
         case["op"] = "data"
         malformed = c.get("kind") == "notjson"
@@ -741,6 +741,15 @@ def run(chk):
                             for k, v in gen.items()}
     chk.cov["generated_changed_this_run"] = changed
     proofs_ok = chk.lean_stage()
+    if proofs_ok:
+        # the generated obligations are audited like the property theorems
+        t = common.theorems_for("C16")
+        ax, problems = common.audit_axioms(t["module"], t.get("generated", []))
+        chk.lean["axioms"].update(ax)
+        if problems:
+            chk.lean["problems"] += problems
+            chk.lean["discharged"] = len(chk.lean["axioms"])
+            proofs_ok = False
     off = constants_probe(chk, gen)
     if off:
         chk.cov["constants_off"] = off
